@@ -33,10 +33,15 @@ pub struct Item {
     pub members: Vec<Member>,
     /// workload class and provenance, for reports only
     pub origin: String,
+    /// if set, the item is this text verbatim (shapes the model above cannot express, e.g. unions)
+    pub raw: Option<String>,
 }
 
 impl Item {
     pub fn render(&self) -> String {
+        if let Some(r) = &self.raw {
+            return r.clone();
+        }
         let mut s = String::new();
         for a in &self.type_attrs {
             s.push_str(a);
@@ -135,7 +140,7 @@ pub fn from_derive_input(di: &syn::DeriveInput, origin: &str) -> Option<Item> {
                 syn::Fields::Unnamed(u) => (Shape::Tuple, u.unnamed.iter().map(field_member).collect()),
                 syn::Fields::Unit => (Shape::Unit, vec![]),
             };
-            Some(Item { type_attrs, is_enum: false, name: di.ident.to_string(), generics, where_clause, shape, members, origin: origin.to_string() })
+            Some(Item { type_attrs, is_enum: false, name: di.ident.to_string(), generics, where_clause, shape, members, origin: origin.to_string(), raw: None })
         },
         syn::Data::Enum(de) => {
             let members = de
@@ -148,7 +153,7 @@ pub fn from_derive_input(di: &syn::DeriveInput, origin: &str) -> Option<Item> {
                     Member { attrs, decl: bare.to_token_stream().to_string() }
                 })
                 .collect();
-            Some(Item { type_attrs, is_enum: true, name: di.ident.to_string(), generics, where_clause, shape: Shape::Named, members, origin: origin.to_string() })
+            Some(Item { type_attrs, is_enum: true, name: di.ident.to_string(), generics, where_clause, shape: Shape::Named, members, origin: origin.to_string(), raw: None })
         },
         syn::Data::Union(_) => None,
     }
